@@ -18,12 +18,19 @@ def litems(s):
     return [{"lt": i, "k": s["k"][i], "j": s["j"][i]} for i in range(len(s["k"]))]
 
 
-def ritems(s, by):
+def ritems(s, by, bare=0):
+    """bare=1: every right item holds nothing but its join keys (a plain lookup list);
+    bare=2: only the first right item of each key value does."""
     out = []
+    seen = set()
     for i in range(len(s["k"])):
         it = {"rt": i, "k": s["k"][i], "y": y(i + 1)}
         if len(by) == 2:
             it["j"] = s["j"][i]
+        key = tuple(it[c] for c in by)
+        if bare == 1 or (bare == 2 and key not in seen):
+            it = {c: it[c] for c in by}
+        seen.add(key)
         out.append(it)
     return out
 
@@ -95,8 +102,9 @@ def run(ctx):
     for l, rr in pairs:
         by = rng.choice([["k"], ["k", "j"]])
         renamed = rng.random() < 0.4
-        L, R = litems(l), ritems(rr, by)
-        for kind in KINDS:
+        bare = rng.choice([0, 0, 0, 1, 2])
+        L, R = litems(l), ritems(rr, by, bare)
+        for kind in (KINDS if bare == 0 else KINDS[:4]):
             rec, rec2 = execute(L, R, {"kind": kind, "by": by, "renamed": renamed})
             records.append(rec)
             if rec2:
